@@ -13,7 +13,9 @@ import DdoModel.Examples.SrflpDp
     `mergeOk_partial` (`MergeOkStmt` for `n ≤ 64` and sets listed increasingly), `dpExact_partial` / `dpExactPrefix_partial`
     (`DpExactStmt` / `DpExactPrefixStmt` for `n ≤ 64`), `rubAdmissible_exact_partial` (`RubAdmissibleExactRatioStmt` on exact
     states, tables as `Srflp::new` builds them, `n ≤ 64`, sets listed increasingly), Smith's rule standalone
-    (`smith_rule_optimal`, `wct_swap_eq`), `wfRel_of_rub`.  The statements below are NOT theorems as written: `InstOk` bounds
+    (`smith_rule_optimal`, `wct_swap_eq`), `wfRel_of_rub`; then (`SrflpProofsRubMerged*.lean`) `rubAdmissible_exactRatio`:
+    `RubAdmissibleExactRatioStmt` on ALL such states, merged states (with a `maybe_place`) included, hence `rubHyp`,
+    `srflp_wfRel` (`WfRel` of the example) and the closed `srflp_relaxed_ub` (`SrflpProofsClosed.lean`).  The statements below are NOT theorems as written: `InstOk` bounds
     neither `n ≤ 64` (`trans?` answers `none` for a department `≥ 64`, `trans` then leaves the state alone: with 65 departments
     the root can "place" department 64 for ever at cost 0) nor ties `sl` / `sf` to the instance (`rubAdmissible_needs_tabSorted`,
     kernel-checked), and `validB` accepts lists with repeated members (`must = [2, 2, 2]`), for which `MergeOkStmt` fails
